@@ -70,19 +70,22 @@ fn wilson_negative_z(max_n: usize) {
         Err(_) => assert!(false, "undocumented error variant"),
     }
 }
-// quick tier: populations up to 4096; thorough tier: up to 10^6 (130 s / 350 s of solver time)
+// populations up to 10^6.  Solver behaviour on these float queries is erratic (CaDiCaL: 133 s at 10^6, 165 s at 65 536, no answer in
+// 900 s at 4 096; Kissat: 99 - 132 s on all three), so the quick tier uses Kissat and the thorough tier repeats with CaDiCaL.
+#[kani::proof]
+#[kani::solver(kissat)]
+#[kani::stub(crate::stats::z_value, z_any_nonneg)]
+fn c11_ci_wilson_wellformed_on_domain() { wilson_wellformed(1_000_000); }
+#[kani::proof]
+#[kani::solver(kissat)]
+#[kani::stub(crate::stats::z_value, z_any_neg)]
+fn c11_ci_wilson_negative_critical_value() { wilson_negative_z(1_000_000); }
 #[kani::proof]
 #[kani::stub(crate::stats::z_value, z_any_nonneg)]
-fn c11_ci_wilson_wellformed_on_domain() { wilson_wellformed(4_096); }
+fn c11t_ci_wilson_wellformed_on_domain_cadical() { wilson_wellformed(1_000_000); }
 #[kani::proof]
 #[kani::stub(crate::stats::z_value, z_any_neg)]
-fn c11_ci_wilson_negative_critical_value() { wilson_negative_z(4_096); }
-#[kani::proof]
-#[kani::stub(crate::stats::z_value, z_any_nonneg)]
-fn c11t_ci_wilson_wellformed_on_domain_1e6() { wilson_wellformed(1_000_000); }
-#[kani::proof]
-#[kani::stub(crate::stats::z_value, z_any_neg)]
-fn c11t_ci_wilson_negative_critical_value_1e6() { wilson_negative_z(1_000_000); }
+fn c11t_ci_wilson_negative_critical_value_cadical() { wilson_negative_z(1_000_000); }
 
 // ---- C02: the success-ratio front-end returns the interval of the counts it implies:
 // for every k <= n, ci_wilson_ratio(c, n, k/n) takes the same branch with the same count as ci_wilson(c, n, k)
